@@ -30,6 +30,11 @@ func genbankFieldNameParser(q interface{}, depth int) pars.Parser {
 		}
 		name := string(result.Token)
 		indentLength := depth - len(name)
+		if indentLength < 0 {
+			state.Clear()
+			what := fmt.Sprintf("uneven indent in field `%s`", name)
+			return pars.NewError(what, state.Position())
+		}
 		indentParser := pars.String(strings.Repeat(" ", indentLength))
 		paddingParser := pars.Any(indentParser, pars.Dry(pars.EOL))
 		if paddingParser(state, pars.Void) != nil {
